@@ -243,8 +243,8 @@ def _expand(ops, allow_skipto, r):
         t = o.split()
         if t[0] in ("next", "prev"):
             out += [t[0]] * int(t[1] if len(t) > 1 else 1)
-        elif t[0] in ("movein", "moveassign", "selfmove", "moveout", "moveassignout"):
-            continue
+        elif t[0] in ("movein", "moveassign", "selfmove", "moveout", "moveassignout", "ss"):
+            continue            # C++-only operations / operations of the iter stream's harness
         elif t[0] == "jump" and allow_skipto and r.random() < 0.4:
             out.append("skipto " + " ".join(t[1:]))
         else:
@@ -255,7 +255,7 @@ def gen_iterc(tier, r):
     q = tier == "quick"
     ops = []
     scripts = stream_iter.gen_scripts("quick", r)
-    keep = [s for s in scripts if not s[0].startswith(("small-long", "big-", "mag-", "long"))]
+    keep = [s for s in scripts if not s[0].startswith(("small-long", "big-", "mag-", "long", "corpus-"))]
     r.shuffle(keep)
     for label, sc in keep[: (60 if q else 400)]:
         for o in _expand(sc, True, r):
